@@ -7,6 +7,7 @@ import (
 	"encoding/json"
 	"errors"
 	"iter"
+	"reflect"
 )
 
 type evA struct {
@@ -164,3 +165,5 @@ func (f *flakyStore) LoadOffset(ctx context.Context, id string) (Offset, error) 
 }
 
 func jsonUnmarshalOK(data []byte, v any) bool { return json.Unmarshal(data, v) == nil }
+
+func reflectTypeOf(x any) reflect.Type { return reflect.TypeOf(x) }
